@@ -364,7 +364,9 @@ func VHAvlHist() {
 	k := vParam("K")
 	for step := 0; step < k; step++ {
 		v := vInt("v")
-		if vChoose("op", 2) == 0 {
+		// (the first WARM operations are Adds: removing from a tree of fewer values than that only
+		// repeats shorter histories)
+		if step < vParam("WARM") || vChoose("op", 2) == 0 {
 			t.Add(v)
 			cnt += vB2U8(v == p)
 			size++
